@@ -1,2 +1,133 @@
-/-! line-protocol driver for property C06 (stub) -/
-def main (_args : List String) : IO Unit := pure ()
+import MirVerif.Model.AbiCallee
+import MirVerif.Gen.C06_Regs
+/-! line-protocol driver for property C06 (see checks/c06.py for the protocol) -/
+open MirVerif.AbiCallee
+
+def parseSig (ws : List String) : Option (List PTy) :=
+  ws.foldr (fun w acc => match PTy.ofString? w, acc with
+    | some t, some l => some (t :: l)
+    | _, _ => none) (some [])
+
+/-- split `a b | c d` at the bar -/
+def splitBar (ws : List String) : List String × List String :=
+  (ws.takeWhile (· != "|"), (ws.dropWhile (· != "|")).drop 1)
+
+def vaStr (v : VaList) : String := s!"{v.gp},{v.fp},{v.oaa}"
+
+def srcPlaces (l : List (List Src)) : List Place := l.map (·.map Src.toPiece)
+
+
+/-- names of the documented deviations of the model (= the code) from the psABI that apply to a
+signature; `gen` selects generated code, otherwise the interpreter shim -/
+def diag (gen : Bool) (named tail : List PTy) (vararg : Bool) : List String := Id.run do
+  let mut tags : List String := []
+  let specNamed := sysvIncoming named
+  let sAfter := (sysvWalk .init named).2
+  let specTail := (sysvWalk sAfter tail).1
+  if gen then
+    if (calleePlace named).map (·.map MPiece.toPiece) != specNamed then
+      tags := tags ++ [if ldAligned .init named then "callee-place-unexplained" else "ld-after-odd-stack-words"]
+    if vararg then
+      let v := (vaStartGen named).toVaList
+      if v.norm != sysvVaStart named then
+        let t := if (named.filter isBlk).length > 0 then "va-start-block-param"
+                 else if (named.filter isIntClass).length ≥ 6 then "va-start-six-named-ints"
+                 else if (named.filter isFp).length > 8 then "va-start-nine-named-fp"
+                 else if !ldAligned .init named then "ld-after-odd-stack-words"
+                 else "va-start-unexplained"
+        tags := tags ++ [t]
+      -- the fetch sequence is judged from the psABI state, the va_start deviation is tagged above
+      if srcPlaces (vaArgWalk (sysvVaStart named) tail).1 != specTail then
+        let t := if (tail.filter isMixedBlk).length > 0 then "va-block-arg-mixed-class"
+                 else if !blkSafe sAfter tail then "va-block-arg-sse-exhausted"
+                 else if !ldAligned sAfter tail then "ld-after-odd-stack-words"
+                 else "va-walk-unexplained"
+        tags := tags ++ [t]
+  else
+    if shimPlace named != specNamed then
+      let t := if (named.filter isMixedBlk).length > 0 then "va-block-arg-mixed-class"
+               else if !blkSafe .init named then "va-block-arg-sse-exhausted"
+               else "shim-place-unexplained"
+      tags := tags ++ [t]
+    if vararg then
+      let v := vaStartShim named
+      if srcPlaces (vaArgWalk v tail).1 != specTail then
+        let t := if ((named ++ tail).filter isMixedBlk).length > 0 then "va-block-arg-mixed-class"
+                 else if !blkSafe .init (named ++ tail) then "va-block-arg-sse-exhausted"
+                 else if !ldAligned sAfter tail then "ld-after-odd-stack-words"
+                 else "va-walk-unexplained"
+        tags := tags ++ [t]
+  return tags
+
+def frameLine (ws : List String) : String :=
+  match ws.map String.toNat? with
+  | [some kf, some va, some jr, some ns, some used, some leaf, some alc, some blkarg] =>
+    let saved := (List.range 16).filter fun hr => !MirVerif.Gen.C06.callUsedP hr && (used >>> hr) % 2 == 1
+    let f : FrameIn := ⟨kf != 0, va != 0, jr != 0, ns, saved⟩
+    if leaf != 0 && alc == 0 && blkarg == 0 && saved.isEmpty && va == 0 && ns == 0 then "frame none"
+    else
+      let saves := (List.range saved.length).map fun i =>
+        let (d, b) := f.saveDisp i
+        s!"{saved[i]!}:{if b then "rbp" else "rsp"}:{d}"
+      s!"frame sub={f.spSub} keepfp={if f.keepFp then 1 else 0} saves={",".intercalate saves}"
+  | _ => "frame ?"
+
+def srcStr : Src → String
+  | .rsa o => s!"r:{o}" | .ovf o => s!"o:{o}"
+
+def step (ws : List String) : String :=
+  match ws with
+  | "spec" :: rest => match parseSig rest with
+    | some ps => "spec " ++ placesToString (sysvIncoming ps)
+    | none => "spec ?"
+  | "gen" :: rest => match parseSig rest with
+    | some ps => "gen " ++ placesToString ((calleePlace ps).map (·.map MPiece.toPiece))
+    | none => "gen ?"
+  | "shim" :: rest => match parseSig rest with
+    | some ps => "shim " ++ placesToString (shimPlace ps)
+    | none => "shim ?"
+  | "vastart" :: rest => match parseSig rest with
+    | some ps => s!"vastart spec={vaStr (sysvVaStart ps)} gen={vaStr (vaStartGen ps).toVaList} shim={vaStr (vaStartShim ps)}"
+    | none => "vastart ?"
+  | "walk" :: rest =>
+    let (a, b) := splitBar rest
+    match parseSig a, parseSig b with
+    | some named, some tail =>
+      let sAfter := (sysvWalk .init named).2
+      let spec := (sysvWalk sAfter tail).1
+      let g := srcPlaces (vaArgWalk (vaStartGen named).toVaList tail).1
+      let s := srcPlaces (vaArgWalk (vaStartShim named) tail).1
+      s!"walk spec={placesToString spec} gen={placesToString g} shim={placesToString s}"
+    | _, _ => "walk ?"
+  | "diag" :: which :: va :: rest =>
+    let (a, b) := splitBar rest
+    match parseSig a, parseSig b with
+    | some named, some tail => "diag " ++ " ".intercalate (diag (which == "gen") named tail (va == "1"))
+    | _, _ => "diag ?"
+  | "frame" :: rest => frameLine rest
+  | ["alloca", n] => match n.toNat? with
+    | some n => s!"alloca {(allocaRoundBV (BitVec.ofNat 64 n)).toNat}"
+    | none => "alloca ?"
+  | ["A", gp, fp, ty] => match gp.toNat?, fp.toNat?, PTy.ofString? (if ty == "i32" || ty == "i64" || ty == "p" then "i" else ty) with
+    | some gp, some fp, some t =>
+      let (src, v) := vaArgStep ⟨gp, fp, 0⟩ t
+      match src.head? with
+      | some (.rsa o) => s!"A r {o} {v.gp} {v.fp} {v.oaa}"
+      | some (.ovf o) => s!"A o {o} {v.gp} {v.fp} {v.oaa}"
+      | none => "A ?"
+    | _, _, _ => "A ?"
+  | ["K", gp, fp, sz, k] => match gp.toNat?, fp.toNat?, sz.toNat?, k.toNat? with
+    | some gp, some fp, some sz, some k =>
+      let (src, v) := vaBlockArg ⟨gp, fp, 0⟩ sz k
+      s!"K {src.length} {" ".intercalate (src.map srcStr)} {v.gp} {v.fp} {v.oaa}"
+    | _, _, _, _ => "K ?"
+  | _ => "?"
+
+partial def loop (h : IO.FS.Stream) : IO Unit := do
+  let line ← h.getLine
+  if line.isEmpty then return ()
+  let ws := (line.trimAscii.toString.splitOn " ").filter (· != "")
+  IO.println (step ws)
+  loop h
+
+def main (_args : List String) : IO Unit := do loop (← IO.getStdin)
